@@ -167,3 +167,10 @@ Example C08_two_updaters_example :
   protocol_prefix_x_ok f false (w (str "t2") (str "two")) = true /\
   tmp_disjoint (w (str "t1") (str "one")) (w (str "t2") (str "two")).
 Proof. exact two_updaters_example. Qed.
+
+(* ---- the model's state space is the code's declared state ----
+   (theories/StateInst.v: package-level variables and struct fields listed by tools/facts on every
+   run; the models keep no state between operations other than these components) *)
+From Whawty Require StateInst.
+Theorem C08_store_state_inventory : StateInst.store_state_inventory.
+Proof. exact StateInst.store_state_inventory_holds. Qed.
